@@ -84,6 +84,10 @@ pub fn run(prop: &str, req: &str, rep: &str, outfile: &str) {
                 if n > 0 {
                     fail(&mut fails, i, q, r, format!("{n} fault points where every call including the final flush returned Ok but the bytes on the medium do not reopen to the state those calls describe (first: {l})"));
                 }
+                let (n, l) = field("retrylost=");
+                if n > 0 {
+                    fail(&mut fails, i, q, r, format!("after a flush that reported an error, the next flush returned Ok although the pending changes are not on the medium ({n} fault points; first: {l})"));
+                }
                 let (n, l) = field("panics=");
                 if n > 0 {
                     fail(&mut fails, i, q, r, format!("{n} fault points where an injected I/O failure caused a panic (first: {l})"));
@@ -104,8 +108,11 @@ pub fn run(prop: &str, req: &str, rep: &str, outfile: &str) {
                     if !r.contains("writes=0 ") {
                         fail(&mut fails, i, q, r, "a session that only opened and read the package issued writes to the medium".into());
                     }
-                    if !r.ends_with("same=1") {
+                    if !r.contains(" same=1") {
                         fail(&mut fails, i, q, r, "the bytes of the medium changed in a read-only session".into());
+                    }
+                    if r.contains("file-same=0") {
+                        fail(&mut fails, i, q, r, "a read-only session through msi::open / msi::open_rw on a file changed the file".into());
                     }
                     if !r.starts_with("ok") {
                         fail(&mut fails, i, q, r, "closing a read-only session failed".into());
